@@ -228,7 +228,7 @@ package defaults
 //@ -- HTTPRedirector interface): whichever mode it picks, the guard, the status and the
 //@ -- "always answers" clauses hold for the call as a whole.
 //@ func (*Redirector).Redirect
-//@   property C15 C10 C08
+//@   property C15 C10 C08 C16
 //@   ensures[C15] guard: (each HTTPRedirect(_, ?url, ?code) => code == 302 && (url == ro.RedirectPath || !offsite_cleaned(url))) &&
 //@       (each Render(_, ?data) => (mapget(data, "location") == ro.RedirectPath || !offsite(mapget(data, "location"))))
 //@   ensures[C15] param_only_when_asked: (each HTTPRedirect(_, ?url, _) => (!ro.FollowRedirParam ==> url == ro.RedirectPath)) &&
@@ -236,6 +236,13 @@ package defaults
 //@   ensures[C10] always_answers: !panics ==> ((emits HTTPRedirect(_, _, _)) || (emits Write(_, _)) || (emits Render(_, _) -> (_, _, ?e) :: e != nil && result == e))
 //@   ensures[C08] status_as_asked: each WriteHeader(_, ?cd) =>
 //@       cd == ite(deref(r).CorceRedirectTo200 && (ro.Code == 307 || ro.Code == 308), 200, ro.Code)
+//@   -- C16 (round 11, C16k): which of the two answer shapes a redirect takes is decided by the
+//@   -- request's Content-Type header alone - not by anything a handler put into the request
+//@   -- context (the submitted values are only there once the password has matched, so a mode
+//@   -- that looks at them tells a correct password from a wrong one on a locked account)
+//@   ensures[C16] mode_from_content_type_only: !panics ==>
+//@       (((emits Render(_, _)) <=> prefixof("application/json", header_get(req.Header, "Content-Type"))) &&
+//@        ((emits HTTPRedirect(_, _, _)) <=> !prefixof("application/json", header_get(req.Header, "Content-Type"))))
 //@
 //@ func (ErrorHandler).Wrap
 //@   property C18 C17
